@@ -593,6 +593,10 @@ impl World {
             .and_then(|b| String::from_utf8(b).ok())
     }
     fn text_of_uri(&self, u: &str) -> Option<String> {
+        if u.starts_with("untitled:") {
+            // a document without a file: it exists as long as it is open
+            return self.buffers.get(u).cloned();
+        }
         let p = lsp_types::Url::parse(u).ok()?.to_file_path().ok()?;
         let rel = p.strip_prefix(WS).ok().map(|r| r.to_string_lossy().to_string());
         match rel {
